@@ -254,7 +254,7 @@ inline void fdrive_unary(const char* prop, const char* type, const char* opname,
                 a[i] = vals[j % n];
             }
             std::array<R, V::width> res;
-            bool ok = false;
+            volatile bool ok = false;
             unsigned focus = (unsigned)((base / W) % W);
             uint32_t cls = fcls(a[focus]);
             FpEnv before = fp_snapshot();
@@ -295,7 +295,7 @@ inline void fdrive_binary(const char* prop, const char* type, const char* opname
                 a[i] = pairs[j % n].a; b[i] = pairs[j % n].b;
             }
             std::array<R, V::width> res;
-            bool ok = false;
+            volatile bool ok = false;
             unsigned focus = (unsigned)((base / W) % W);
             uint32_t cls = fpcls(a[focus], b[focus]);
             FpEnv before = fp_snapshot();
